@@ -218,6 +218,83 @@ def _harness(ops):
     return fn
 
 
+# ---------------------------------------------------------------- the connection is dropped inside a command
+# The byte stream of a command is cut at every position (the fault point is a solver-drawn index) and followed by end
+# of stream, on the real connection loop.  A command that did not arrive completely must leave the mailboxes as they
+# were; one that arrived completely has its full effect.  Literal contents are symbolic bytes.
+STREAMS = ['multiappend {n+}', 'multiappend {n}', 'uid expunge', 'move', 'store']
+
+
+def stream_items(kind, lit1, lit2):
+    if kind == 0:
+        return (list(b'a APPEND INBOX (\\Flagged) {%d+}\r\n' % len(lit1)) + list(lit1) + list(b' (\\Answered) {%d+}\r\n' % len(lit2))
+                + list(lit2) + [13, 10])
+    if kind == 1:
+        return (list(b'a APPEND INBOX (\\Flagged) {%d}\r\n' % len(lit1)) + list(lit1) + list(b' (\\Answered) {%d}\r\n' % len(lit2))
+                + list(lit2) + [13, 10])
+    if kind == 2:
+        return list(b'a UID EXPUNGE 1:3000\r\n')
+    if kind == 3:
+        return list(b'a MOVE 1:2 Other\r\n')
+    return list(b'a STORE 1:2 +FLAGS.SILENT (\\Seen)\r\n')
+
+
+def truncated(g, sim, conn_mod, kind, cut, lit1, lit2, mk=bytes):
+    from pymap.backend.dict import Login
+    from pymap.user import UserMetadata
+    w = sim.World(g, 1)
+    for i in range(2):
+        w.append(0, flags=[g['Deleted']])
+    cfg = w.config
+    login = Login(cfg)
+    login.users_dict['testuser'] = UserMetadata(cfg, 'testuser', password=cfg.hash_context.hash('testpass'))
+    cfg.set_cache['testuser'] = (w.mset, w.fset)
+
+    def conc(v):
+        return v.lower_concrete() if hasattr(v, 'lower_concrete') else bytes(v)
+
+    def snap():
+        return {n: [(u, sorted(conc(f.value) for f in fl)) for u, fl, _ in w.dump(n)] for n in ('INBOX', 'Other')}
+    before = snap()
+    full = stream_items(kind, lit1, lit2)
+    part = full[:cut]
+    feed = [b'l LOGIN testuser testpass\r\n', b's SELECT INBOX\r\n']
+    if part:
+        feed.append(mk(part))
+    tr, state, exc = conn_mod.run_imap(g, login, cfg, feed, local=True)
+    after = snap()
+    complete = cut == len(full)
+    if not complete and after != before:
+        return 'the connection was dropped after %d of %d bytes of the command and the mailboxes changed: %r -> %r' % (
+            cut, len(full), before, after)
+    if complete:
+        if kind in (0, 1) and len(after['INBOX']) != len(before['INBOX']) + 2:
+            return 'the complete APPEND of two messages stored %d' % (len(after['INBOX']) - len(before['INBOX']))
+        if kind == 2 and after['INBOX']:
+            return 'the complete UID EXPUNGE left messages'
+        if kind == 3 and (after['INBOX'] or len(after['Other']) != 2):
+            return 'the complete MOVE did not move both messages'
+    return None
+
+
+def _h_truncated(kind, nlit):
+    def fn(eng):
+        from pysymex import fresh_bytes, SymBytes, Outcome
+        from checks import _conn
+        lit1 = fresh_bytes(eng, 'x', nlit if kind < 2 else 0)
+        lit2 = fresh_bytes(eng, 'y', nlit if kind < 2 else 0)
+        total = len(stream_items(kind, lit1.items, lit2.items))
+        cut = eng.choose('cut', total + 1)
+        wit = lambda m: {'kind': kind, 'cut': cut, 'lit1': bytes(lit1.eval(m)).hex(), 'lit2': bytes(lit2.eval(m)).hex()}  # noqa: E731
+        g = dict(_g)
+        from pymap.imap import IMAPConnection
+        from pymap.context import connection_exit
+        g.update(IMAPConnection=IMAPConnection, connection_exit=connection_exit)
+        err = truncated(g, _g['_sim'], _conn, kind, cut, lit1.items, lit2.items, lambda items: SymBytes(items, 'bytes'))
+        return Outcome(err is None, witness=wit, info=err)
+    return fn
+
+
 def harnesses(tier):
     from pysymex.runner import Harness
     from checks import _conc
@@ -225,6 +302,10 @@ def harnesses(tier):
     extra = [Harness('interleaved_commands[tasks=%d,delays<=%d]' % (nt, nd), _conc.adders_harness(_g, nt, 'conservation', nd),
                      {'tasks': nt, 'ops': _conc.ADD_OPS, 'third_party_delays': nd}, replay='adders', task_budget=60)
              for nt, nd in ([(2, 3)] if q else [(2, 6), (3, 3)])]
+    for kind in range(len(STREAMS)):
+        extra.append(Harness('dropped_inside[%s]' % STREAMS[kind], _h_truncated(kind, 2 if q else 3),
+                             {'command': STREAMS[kind], 'cut': 'every byte position', 'literal_bytes': 'symbolic'},
+                             replay='truncated', task_budget=60))
     return extra + [Harness('fault_schedule[%s]' % op, _harness([op]), {'op': op, 'suspension_points': '<= 8',
                                                                  'cancellations': '<= 1'},
                     replay='schedule', task_budget=60) for op in OPS]
@@ -233,6 +314,13 @@ def harnesses(tier):
 def replay(harness, w):
     from checks import _sim
     g = _sim.bindings()
+    if harness == 'truncated':
+        from checks import _conn
+        from pymap.imap import IMAPConnection
+        from pymap.context import connection_exit
+        g.update(IMAPConnection=IMAPConnection, connection_exit=connection_exit)
+        err = truncated(g, _sim, _conn, w['kind'], w['cut'], bytes.fromhex(w['lit1']), bytes.fromhex(w['lit2']))
+        return {'violates': err is not None, 'detail': err, 'kind': 'dropped', 'category': 'dropped inside ' + STREAMS[w['kind']]}
     if harness == 'adders':
         from checks import _conc
         bad = _conc.adders_replay(g, _sim, w)
